@@ -285,7 +285,7 @@ def run_in_fresh_process(group, hashseed):
     env = dict(os.environ)
     env["PYTHONHASHSEED"] = str(hashseed)
     env["SCHEMATHESIS_VERIF"] = "1"
-    env["PYTHONPATH"] = HERE
+    env["PYTHONPATH"] = (os.environ["VERIF_REPO"] + "/src:" if os.environ.get("VERIF_REPO") else "") + HERE
     proc = subprocess.run(
         ["/venv/bin/python", "-c", "import sys, json; sys.path.append(%r); from vmon.props import c13; print('@@' + json.dumps(c13.one_run(json.loads(sys.argv[1]))))" % os.path.join(HERE, ".deps"), json.dumps(group)],
         env=env,
